@@ -59,6 +59,32 @@ func runC03(cfg *vh.Config) error {
 		return vh.Pick(r, targets)
 	}
 
+	// every call goes through the worker process; a call that does not come back is a failure with its input,
+	// and after maxHard of them nothing more is run
+	dec := func(t *target, doc []byte, stream string) (obs, bool) {
+		if tripped() {
+			res.Count(stream + ": not run (the run stopped after calls that did not return)")
+			return obs{}, false
+		}
+		o := decodeJSON(t, doc)
+		if o.hard() {
+			res.Fail(hardFailure("C03", "JSONToProto", em.caseNo, stream, map[string]any{"target": t.Env.Root, "json": short(doc)}, o))
+			em.caseNo++
+		}
+		return o, o.usable()
+	}
+	decQ := func(t *target, q url.Values, stream string) (obs, bool) {
+		if tripped() {
+			return obs{}, false
+		}
+		o := decodeQuery(t, q)
+		if o.hard() {
+			res.Fail(hardFailure("C03", "QueryToProto", em.caseNo, stream, map[string]any{"target": t.Env.Root, "query": q.Encode()}, o))
+			em.caseNo++
+		}
+		return o, o.usable()
+	}
+
 	// exact: the decoded message against the independent reading of the document
 	checkExact := func(t *target, tree *codecgen.J, doc []byte, o obs, stream string, extra string) {
 		rd := codecgen.Read(t.Env, tree)
@@ -71,7 +97,9 @@ func runC03(cfg *vh.Config) error {
 			res.Fail(vh.Failure{Case: em.caseNo, Stream: stream, Sig: "C03 decoder panics in " + o.Site, Clause: "decoding succeeds or is rejected with an error", Input: input, Got: o.Panic})
 		case "ok":
 			if rd.Verdict == codecgen.MustReject {
-				res.Fail(vh.Failure{Case: em.caseNo, Stream: stream, Sig: fmt.Sprintf("C03 accepted although not representable: %s", rd.Why), Clause: "a member that cannot be represented in its target field is rejected", Input: input, Got: "decoded to " + short([]byte(codecgen.MsgTerm(o.Msg))), Want: "error (" + rd.Why + " at " + rd.Where + ")"})
+				res.Fail(vh.Failure{Case: em.caseNo, Stream: stream, Sig: fmt.Sprintf("C03 accepted although not representable: %s", rd.Why), Clause: "a member that cannot be represented in its target field is rejected", Input: input, Got: "decoded to " + short([]byte(o.term())), Want: "error (" + rd.Why + " at " + rd.Where + ")"})
+			} else if o.Msg == nil {
+				res.Count("exactness not judged: decoded message not transferable from the worker")
 			} else if !rd.Incomparable {
 				if d := codecgen.Diff(rd.Msg, o.Msg); d != "" {
 					res.Fail(vh.Failure{Case: em.caseNo, Stream: stream, Sig: "C03 stored message differs from what the document denotes: " + diffClass(d), Clause: "every non-null member is stored with exactly the value it denotes", Input: input, Got: d})
@@ -98,7 +126,10 @@ func runC03(cfg *vh.Config) error {
 		g.PropChance = vh.Pick(r, []int{8, 20, 35, 60})
 		tree := g.Root()
 		doc := []byte(tree.Print(nil))
-		o := decodeJSON(t, doc)
+		o, ran := dec(t, doc, "canonical")
+		if !ran {
+			continue
+		}
 		distinct.Add(t.Name + string(doc))
 		res.Count("canonical")
 		res.Count("canonical-outcome:" + o.Kind)
@@ -115,12 +146,15 @@ func runC03(cfg *vh.Config) error {
 		if o.Kind != "ok" {
 			continue
 		}
-		want := codecgen.MsgTerm(o.Msg)
+		want := o.term()
 		for k := 0; k < 3; k++ {
 			vt, kinds := codecgen.Respell(r, t.Env, tree)
 			st := &codecgen.Style{R: r, Spaces: r.Bool(), Unicode: r.Bool(), Shuffle: r.Bool()}
 			vdoc := []byte(vt.Print(st))
-			vo := decodeJSON(t, vdoc)
+			vo, ran := dec(t, vdoc, "variant")
+			if !ran {
+				continue
+			}
 			distinct.Add(t.Name + string(vdoc))
 			res.Count("variant")
 			res.Count("variant-outcome:" + vo.Kind)
@@ -130,7 +164,7 @@ func runC03(cfg *vh.Config) error {
 			input := map[string]any{"target": t.Env.Root, "canonical": short(doc), "variant": short(vdoc), "variations": kinds}
 			switch vo.Kind {
 			case "ok":
-				if got := codecgen.MsgTerm(vo.Msg); got != want {
+				if got := vo.term(); got != want {
 					res.Fail(vh.Failure{Case: em.caseNo, Stream: "variant", Sig: "C03 spelling variant decodes to a different message: " + culprit(r, t, tree, vt, want), Clause: "all documented alternate spellings produce the same message as the canonical spelling", Input: input, Got: firstDiff(got, want)})
 				}
 			case "err":
@@ -153,7 +187,10 @@ func runC03(cfg *vh.Config) error {
 		tree := g.Root()
 		st := &codecgen.Style{R: r, Spaces: r.Bool(), Unicode: r.Bool(), Shuffle: r.Bool()}
 		doc := []byte(tree.Print(st))
-		o := decodeJSON(t, doc)
+		o, ran := dec(t, doc, "mixed")
+		if !ran {
+			continue
+		}
 		distinct.Add(t.Name + string(doc))
 		res.Count("mixed")
 		res.Count("mixed-outcome:" + o.Kind)
@@ -172,7 +209,10 @@ func runC03(cfg *vh.Config) error {
 			continue
 		}
 		doc := []byte(ft.Print(nil))
-		o := decodeJSON(b.t, doc)
+		o, ran := dec(b.t, doc, "fault")
+		if !ran {
+			continue
+		}
 		distinct.Add(b.t.Name + string(doc))
 		res.Count("fault")
 		res.Count("fault:" + f.Class)
@@ -186,7 +226,7 @@ func runC03(cfg *vh.Config) error {
 		} else {
 			switch o.Kind {
 			case "ok":
-				res.Fail(vh.Failure{Case: em.caseNo, Stream: "fault", Sig: fmt.Sprintf("C03 faulted document accepted: %s (%s)", f.Class, f.Kind), Clause: "a document containing a member that cannot be represented is rejected with an error rather than partially accepted", Input: input, Got: "decoded to " + short([]byte(codecgen.MsgTerm(o.Msg))), Want: "error"})
+				res.Fail(vh.Failure{Case: em.caseNo, Stream: "fault", Sig: fmt.Sprintf("C03 faulted document accepted: %s (%s)", f.Class, f.Kind), Clause: "a document containing a member that cannot be represented is rejected with an error rather than partially accepted", Input: input, Got: "decoded to " + short([]byte(o.term())), Want: "error"})
 			case "panic":
 				res.Fail(vh.Failure{Case: em.caseNo, Stream: "fault", Sig: "C03 decoder panics in " + o.Site, Clause: "rejected with an error", Input: input, Got: o.Panic})
 			}
@@ -232,7 +272,10 @@ func runC03(cfg *vh.Config) error {
 		tree.Schema = root
 		tree.Add(a.JSON, g.Value(a.Ty, 2)).Add(b.JSON, g.Value(b.Ty, 2))
 		doc := []byte(tree.Print(nil))
-		o := decodeJSON(t, doc)
+		o, ran := dec(t, doc, "proto-oneof-siblings")
+		if !ran {
+			continue
+		}
 		distinct.Add(t.Name + string(doc))
 		res.Count("proto-oneof-siblings")
 		res.Count("proto-oneof-siblings-outcome:" + o.Kind)
@@ -281,8 +324,14 @@ func runC03(cfg *vh.Config) error {
 			continue
 		}
 		doc := []byte(tree.Print(nil))
-		oj := decodeJSON(t, doc)
-		oq := decodeQuery(t, q)
+		oj, ran := dec(t, doc, "query")
+		if !ran {
+			continue
+		}
+		oq, ran := decQ(t, q, "query")
+		if !ran {
+			continue
+		}
 		distinct.Add(t.Name + "q:" + q.Encode())
 		res.Count("query")
 		res.Count("query-outcome:" + oq.Kind)
@@ -290,7 +339,7 @@ func runC03(cfg *vh.Config) error {
 		if oj.Kind == "ok" {
 			switch oq.Kind {
 			case "ok":
-				if a, b := codecgen.MsgTerm(oq.Msg), codecgen.MsgTerm(oj.Msg); a != b {
+				if a, b := oq.term(), oj.term(); a != b {
 					res.Fail(vh.Failure{Case: em.caseNo, Stream: "query", Sig: "C03 query parameters decode to a different message than the JSON document: " + queryCulprit(t, tree, q), Clause: "scalar values supplied as URL query parameters produce the same message as the canonical spelling", Input: input, Got: firstDiff(a, b)})
 				}
 			case "err":
@@ -356,7 +405,10 @@ func runC03(cfg *vh.Config) error {
 				tree.Schema = root
 				tree.Add(p.JSON, wrap(v))
 				doc := []byte(tree.Print(nil))
-				o := decodeJSON(t, doc)
+				o, ran := dec(t, doc, "boundary")
+				if !ran {
+					continue
+				}
 				distinct.Add(t.Name + string(doc))
 				res.Count("boundary")
 				res.Count("boundary-outcome:" + o.Kind)
@@ -367,6 +419,10 @@ func runC03(cfg *vh.Config) error {
 		}
 	}
 
+	if tripped() {
+		res.Notes = append(res.Notes, fmt.Sprintf("the run stopped issuing calls after %d calls that did not return (killed worker processes); the remaining inputs were not executed", maxHard))
+	}
+	shutdownWorker()
 	res.Evaluations = em.caseNo
 	res.Distinct = len(distinct) - 1
 	return em.finish(cfg)
@@ -397,7 +453,7 @@ func culprit(r *vh.Rand, t *target, canon, variant *codecgen.J, want string) str
 					probe := canon.Clone()
 					replaceEqual(probe, a, b)
 					o := decodeJSON(t, []byte(probe.Print(nil)))
-					if o.Kind != "ok" || codecgen.MsgTerm(o.Msg) != want {
+					if o.Kind != "ok" || o.term() != want {
 						seen[name] = true
 						out = append(out, name)
 					}
@@ -499,7 +555,7 @@ func queryCulprit(t *target, tree *codecgen.J, q url.Values) string {
 		one.Add(m.Key, m.Val)
 		oj := decodeJSON(t, []byte(one.Print(nil)))
 		oq := decodeQuery(t, url.Values{m.Key: q[m.Key]})
-		if oj.Kind == "ok" && (oq.Kind != "ok" || codecgen.MsgTerm(oq.Msg) != codecgen.MsgTerm(oj.Msg)) {
+		if oj.Kind == "ok" && (oq.Kind != "ok" || oq.term() != oj.term()) {
 			ty := m.Val.Ty
 			if ty == nil {
 				return m.Key
